@@ -7,6 +7,7 @@ package economics
 /*@
 struct economicsData
   invariant modifier-range: gasPriceModifier > 0.0 && gasPriceModifier <= 1.0
+  invariant supply-set: genesisTotalSupply != nil
 
 // interface-level contracts: transaction getters and the built-in cost handler are functions of their arguments
 func (tx process.TransactionWithFeeHandler) GetGasLimit() (r uint64)
@@ -51,4 +52,81 @@ func (ed *economicsData) GasPriceForProcessing(tx process.TransactionWithFeeHand
   requires tx != nil
   requires inv(ed)
   ensures  at-most-gas-price: r <= tx.GetGasPrice()
+  ensures  exact-without-modifier: !flagSet(ed.flagGasPriceModifier) && tx.GetGasPrice() < 9007199254740992 ==> r == tx.GetGasPrice()
+
+spec fn moveFee(ed *economicsData, tx process.TransactionWithFeeHandler) int = isSCR(tx) ? 0 : tx.GetGasPrice() * moveGas(ed, tx)
+
+// fee validity as established by CheckValidityTxValues (plus the configuration bound that keeps the gas limit in uint64)
+spec fn feeValid(ed *economicsData, tx process.TransactionWithFeeHandler) bool = tx != nil && moveGas(ed, tx) < 18446744073709551616 && (isSCR(tx) || tx.GetGasLimit() >= moveGas(ed, tx))
+
+func (ed *economicsData) ComputeMoveBalanceFee(tx process.TransactionWithFeeHandler) (r *big.Int)
+  requires tx != nil && moveGas(ed, tx) < 18446744073709551616
+  ensures  fresh(r)
+  ensures  formula: big(r) == moveFee(ed, tx)
+  assigns  nothing
+
+func (ed *economicsData) ComputeFeeForProcessing(tx process.TransactionWithFeeHandler, gasToUse uint64) (r *big.Int)
+  requires tx != nil && inv(ed)
+  ensures  fresh(r)
+  ensures  formula: big(r) == ed.GasPriceForProcessing(tx) * gasToUse
+  assigns  nothing
+
+func (ed *economicsData) SplitTxGasInCategories(tx process.TransactionWithFeeHandler) (gasLimitMove uint64, gasLimitProcess uint64)
+  requires tx != nil && moveGas(ed, tx) < 18446744073709551616
+  ensures  move: gasLimitMove == moveGas(ed, tx)
+  ensures  rest: gasLimitProcess == (tx.GetGasLimit() >= gasLimitMove ? tx.GetGasLimit() - gasLimitMove : 0)
+  assigns  nothing
+
+// the fee ComputeTxFee charges, as a closed form per epoch configuration
+spec fn procPrice(ed *economicsData, tx process.TransactionWithFeeHandler) int = ed.GasPriceForProcessing(tx)
+spec fn fullFee(ed *economicsData, tx process.TransactionWithFeeHandler) int = flagSet(ed.flagGasPriceModifier) ? (isSCR(tx) ? procPrice(ed, tx) * tx.GetGasLimit() : moveFee(ed, tx) + (tx.GetGasLimit() > moveGas(ed, tx) ? procPrice(ed, tx) * (tx.GetGasLimit() - moveGas(ed, tx)) : 0)) : (flagSet(ed.flagPenalizedTooMuchGas) ? tx.GetGasLimit() * tx.GetGasPrice() : moveFee(ed, tx))
+spec fn feeForGas(ed *economicsData, tx process.TransactionWithFeeHandler, g int) int = moveFee(ed, tx) + (g > moveGas(ed, tx) ? procPrice(ed, tx) * (g - moveGas(ed, tx)) : 0)
+
+func (ed *economicsData) ComputeTxFee(tx process.TransactionWithFeeHandler) (r *big.Int)
+  requires feeValid(ed, tx) && inv(ed)
+  ensures  fresh(r)
+  ensures  closed-form: big(r) == fullFee(ed, tx)
+  ensures  at-least-move-balance-fee: big(r) >= moveFee(ed, tx)
+  ensures  at-most-limit-times-price: big(r) <= tx.GetGasLimit() * tx.GetGasPrice()
+  assigns  nothing
+
+func (ed *economicsData) ComputeTxFeeBasedOnGasUsed(tx process.TransactionWithFeeHandler, gasUsed uint64) (r *big.Int)
+  requires tx != nil && moveGas(ed, tx) < 18446744073709551616 && inv(ed)
+  ensures  fresh(r)
+  ensures  formula: big(r) == feeForGas(ed, tx, gasUsed)
+  assigns  nothing
+
+func (ed *economicsData) CheckValidityTxValues(tx process.TransactionWithFeeHandler) (err error)
+  requires tx != nil && moveGas(ed, tx) < 18446744073709551616 && inv(ed) && tx.GetValue() != nil
+  ensures  accepted-is-fee-valid: err == nil ==> feeValid(ed, tx) && tx.GetGasPrice() >= ed.minGasPrice && tx.GetGasLimit() < ed.maxGasLimitPerBlock
+
+func isTooMuchGasProvided(gasProvided uint64, gasRemained uint64) (r bool)
+  pure
+  ensures not-when-nothing-used: gasProvided <= gasRemained ==> !r
+
+func (ed *economicsData) ComputeGasUsedAndFeeBasedOnRefundValue(tx process.TransactionWithFeeHandler, refundValue *big.Int) (gasUsed uint64, fee *big.Int)
+  requires feeValid(ed, tx) && inv(ed) && refundValue != nil && ed.builtInFunctionsCostHandler != nil
+  requires user-transaction: !isSCR(tx)
+  requires refund-range: 0 <= big(refundValue) && big(refundValue) <= fullFee(ed, tx) - moveFee(ed, tx)
+  requires processing-price-positive: procPrice(ed, tx) > 0
+  requires gas-price-exactly-representable-as-float64: tx.GetGasPrice() < 9007199254740992
+  ensures  gas-used-at-most-gas-limit: gasUsed <= tx.GetGasLimit()
+  ensures  refund-lowers-fee-exactly: big(refundValue) != 0 ==> big(fee) == fullFee(ed, tx) - big(refundValue)
+  ensures  fee-at-most-full-fee: (flagSet(ed.flagGasPriceModifier) || flagSet(ed.flagPenalizedTooMuchGas)) ==> big(fee) <= fullFee(ed, tx)
+
+// "the fee computed from gas used grows with gas used and never exceeds the full fee" — over the contracts of the two functions
+lemma fee-from-gas-used-monotone
+  vars ed *economicsData, tx process.TransactionWithFeeHandler, g1 uint64, g2 uint64
+  hyp  feeValid(ed, tx) && inv(ed) && g1 <= g2
+  call f1 = ed.ComputeTxFeeBasedOnGasUsed(tx, g1)
+  call f2 = ed.ComputeTxFeeBasedOnGasUsed(tx, g2)
+  concl monotone: big(f1) <= big(f2)
+
+lemma fee-from-gas-used-bounded
+  vars ed *economicsData, tx process.TransactionWithFeeHandler, g uint64
+  hyp  feeValid(ed, tx) && inv(ed) && !isSCR(tx) && g <= tx.GetGasLimit()
+  hyp  not-legacy-configuration: flagSet(ed.flagGasPriceModifier) || flagSet(ed.flagPenalizedTooMuchGas)
+  call part = ed.ComputeTxFeeBasedOnGasUsed(tx, g)
+  call full = ed.ComputeTxFee(tx)
+  concl bounded: big(part) <= big(full)
 @*/
